@@ -36,7 +36,10 @@ def edges_spec(ref, builder):
                 add(b, a, "DISJUNCTIVE")
         for j in range(J):
             for p in range(1, ref.jlen[j]):
-                add(ref.op_id[(j, p - 1)], ref.op_id[(j, p)], "CONJUNCTIVE")
+                # the job chain is a hard precedence: where the pair also
+                # shares a machine the forward edge is the conjunctive one
+                # (the reverse edge still carries the disjunctive pairing)
+                E[(ref.op_id[(j, p - 1)], ref.op_id[(j, p)])] = {"CONJUNCTIVE"}
             add(src, ref.op_id[(j, 0)], "CONJUNCTIVE")
             add(ref.op_id[(j, ref.jlen[j] - 1)], snk, "CONJUNCTIVE")
         return E
